@@ -37,6 +37,9 @@ _CONTAINERS = [
     "{}", '{"a": 1}', '{"a": 1, "b": "x"}', '{"a": 1, "b": 2}', '{"a": "x"}', '{"b": "x"}', "{1: 1}",
     '{1: "a"}', '{"a": 1, "b": "x", "c": 3}', '{"a": [1]}', '{"a": None}', '{"a": True, "b": ""}',
     '{"x": 1.5}', "{(1,): 1}", '{"a": {"a": 1}}',
+    # siblings that are equal under == but differ in type (1 / 1.0 / True), bare and inside unhashable containers
+    "[1, 1.0]", "[1, True]", "(1.0, 1)", "[[1], [1.0]]", "[[1.0], [1]]", "[[True], [1]]", "[[0], [False]]", "([1, 2], [1, 2.0])",
+    '[{"a": True}, {"a": 1}]', "[{1}, {1.0}]", "{1: [1], 2: [1.0]}", "[[1], [1], [1.0]]",
 ]
 _INSTANCES = ["A()", "B()", "C()", "D(1)", 'D(1, "y")', "G()", "WithX()", "Closer()"]
 _CLASSES = ["int", "bool", "str", "float", "A", "B", "C", "type", "object", "E", "list", "D"]
